@@ -2,7 +2,7 @@
    in-memory trees and the canary-tree experiments, compared with the model and
    judged by the validators.  "mismatch:" = model and implementation differ;
    "viol:" = the implementation's observed behaviour breaks confinement. *)
-From Apko Require Export Base.Prelude Base.C18Path Generated.C18 Spec.ConfineSpec Model.Confine Model.ConfineHost.
+From Apko Require Export Base.Prelude Base.C18Path Generated.C18 Spec.ConfineSpec Model.Confine Model.ConfineHost Model.ConfineTemp.
 Open Scope string_scope. Open Scope list_scope.
 
 Definition str_eqs (m : str) (obs : string) : bool := str_eqb m (la obs).
@@ -50,7 +50,11 @@ Inductive pcase :=
 | PHexOk (s : string) (ok : bool)                       (* hex.DecodeString succeeds *)
 | PCacheMember (cacheDir datahash dat tarf : string)    (* the two names cachedPackage builds; the suffixes in the
                                                            harness are literals, the model's come from the source *)
-| PLookup (which : string) (tree : tnode) (path : string) (obs : lkind).
+| PLookup (which : string) (tree : tnode) (path : string) (obs : lkind)
+| PUnescape (s : string) (out : option string)            (* url.PathUnescape *)
+| PAlpineKey (u : string) (out : option string)           (* the file name fetchAlpineKeys builds for a key URL *)
+| PTempName (pattern : string) (name : option string)     (* os.CreateTemp(dir, pattern): the base name made *)
+| PExpand (cacheDir : string) (created : list string).    (* expandapk.ExpandApk(_, cacheDir): everything that appeared *)
 
 Definition all_in (alpha : str) (s : str) : bool := forallb (fun c => existsb (Ascii.eqb c) alpha) s.
 
@@ -61,6 +65,33 @@ Definition lres_kind (r : lres) : lkind :=
   | LOk (NDir _) => KDir
   | LNotExist => KNotExist
   | _ => KOther
+  end.
+
+(* [name] is prefix ++ digits ++ suffix for the pattern's prefix and suffix *)
+Definition temp_name_matches (pattern name : str) : bool :=
+  if existsb is_sl pattern then false
+  else
+    let '(pre, suf) := match last_star pattern with Some ps => ps | None => (pattern, []) end in
+    has_prefix name pre && has_suffix name suf &&
+    Nat.leb (List.length pre + List.length suf) (List.length name) &&
+    digits_ok (firstn (List.length name - List.length pre - List.length suf) (skipn (List.length pre) name)).
+
+(* a stream file or the tar of one: <base>-<digits>.<ext> / the same without the trimmed suffix *)
+Definition stream_name_matches (f : str) : bool :=
+  let pre := la expand_stream_base ++ la "-" in
+  let ok (suf : str) :=
+    has_prefix f pre && has_suffix f suf && Nat.leb (List.length pre + List.length suf) (List.length f) &&
+    digits_ok (firstn (List.length f - List.length pre - List.length suf) (skipn (List.length pre) f)) in
+  ok (la "." ++ la expand_stream_ext) || ok (la "." ++ trim_suffix (la expand_stream_ext) (la expand_tar_trim)).
+
+(* a path ExpandApk may create in [cacheDir] according to the model: the temporary
+   directory, or a stream file / tar directly in it *)
+Definition expand_path_ok (cacheDir p : str) : bool :=
+  Bool.eqb (is_abs cacheDir) (is_abs p) &&
+  match skipn (List.length (cc cacheDir)) (cc p) with
+  | [n] => cprefixb (cc cacheDir) (cc p) && temp_name_matches (la expand_tmpdir_pattern) n
+  | [n; f] => cprefixb (cc cacheDir) (cc p) && temp_name_matches (la expand_tmpdir_pattern) n && stream_name_matches f
+  | _ => false
   end.
 
 Definition check_path (c : pcase) : list string :=
@@ -143,7 +174,20 @@ Definition check_path (c : pcase) : list string :=
   | PLookup which t path obs =>
       let ml := if String.eqb which "tarfs" then tarfs_max_links else memfs_max_links in
       let r := get_node (S (S ml)) ml (to_node t) (la path) 0 in
-      tag_if (negb (lkind_eqb (lres_kind r) obs)) "mismatch:tree-lookup"
+      tag_if (negb (lkind_eqb (lres_kind r) obs)) "mismatch:tree-lookup" ++
+      (* the place-returning lookup of the operational model finds something exactly when this one does *)
+      tag_if (negb (Bool.eqb (match get_pos (S (S ml)) ml (to_node t) (la path) 0 with Some _ => true | None => false end)
+                             (match r with LOk _ => true | _ => false end))) "mismatch:tree-lookup-place"
+  | PUnescape x out => tag_if (negb (ostr_eqs (path_unescape (la x)) out)) "mismatch:path-unescape"
+  | PAlpineKey u out => tag_if (negb (ostr_eqs (alpine_key_file (la u)) out)) "mismatch:alpine-key-file"
+  | PTempName pattern name =>
+      match name with
+      | Some n => tag_if (negb (temp_name_matches (la pattern) (la n))) "mismatch:temp-name"
+      | None => tag_if (negb (existsb is_sl (la pattern))) "mismatch:temp-name-refused"
+      end
+  | PExpand d created =>
+      tag_if (negb (forallb (fun p => expand_path_ok (la d) (la p)) created)) "mismatch:expand-creates" ++
+      tag_if (negb (forallb (fun p => underb (la d) (la p)) created)) "viol:expand-escapes-cache-dir"
   end.
 
 (* ---- canary tree: operations on the directory-backed filesystem -------------- *)
@@ -456,10 +500,19 @@ Definition check_host (c : hcase) : list string :=
   | None => []
   end.
 
+(* the case-insensitive mode of dirFS (caseMap): the overlay is called exactly as in the
+   other mode, the host only for the first spelling of a name — so the host calls are a
+   SUBSET of the model's; every observed escape must still be one the model produces *)
+Definition check_host_sub (c : hcase) : list string :=
+  filter (fun t => negb (String.eqb t "mismatch:host-model-escape-not-observed") &&
+                   negb (String.eqb t "mismatch:host-model-inside-differs") &&
+                   negb (String.eqb t "mismatch:dirfs-op-answer"))
+         (check_host c).
+
 Inductive c18case := CPath (c : pcase) | CCanary (c : kcase) | CCache (c : ccase) | CKeyring (c : ycase) | CMember (c : mcase)
-                   | CHost (c : hcase).
+                   | CHost (c : hcase) | CHostCI (c : hcase).
 Definition check_c18 (c : c18case) : list string :=
   match c with
   | CPath p => check_path p | CCanary k => check_canary k | CCache q => check_cache q
-  | CKeyring y => check_keyring y | CMember m => check_member m | CHost h => check_host h
+  | CKeyring y => check_keyring y | CMember m => check_member m | CHost h => check_host h | CHostCI h => check_host_sub h
   end.
